@@ -441,6 +441,40 @@ def _task_text(task):
                     {'part': 'text', 'rule': r}, size=len(r))
                 break
         res.count('nontrivial')
+        # removal at the bus: two connections hold the identical rule text;
+        # the one that removes it stops receiving, the other does not
+        hit = next((m for m in msgs if ref_match(r, m)), None)
+        if hit is None:
+            continue
+        other.call_bus('AddMatch', 's', [text])
+        other.received()
+        for remover, keeper in ((other, holder), (holder, None)):
+            remover.call_bus('RemoveMatch', 's', [text])
+            rep = remover.received()
+            if not rep or rep[-1]['type'] != 2:
+                res.violation('%s/text/bus-remove-refused/%s'
+                              % (PROP, _rtag(r)),
+                              'RemoveMatch(%r) was answered %r'
+                              % (text, [(m['type'], m['body'])
+                                        for m in rep]),
+                              {'part': 'text', 'rule': r}, size=len(r))
+                break
+            sender.send_raw(R.encode_message(
+                4, sender.next_serial(), dict(hit['fields']), hit['sig'],
+                hit['body']))
+            res.count('transitions')
+            got_r = [x for x in remover.received() if x['type'] == 4]
+            got_k = [x for x in keeper.received() if x['type'] == 4] \
+                if keeper is not None else []
+            if got_r or (keeper is not None and len(got_k) != 1):
+                res.violation(
+                    '%s/text/bus-remove/%s' % (PROP, _rtag(r)),
+                    'two connections held %r; after one removed it a '
+                    'matching broadcast reached the remover %d time(s) and '
+                    'the other holder %d time(s)'
+                    % (text, len(got_r), len(got_k)),
+                    {'part': 'text', 'rule': r}, size=len(r))
+                break
     if rs:
         res.sample({'rule': rs[-1], 'as_text': "see client AddMatch body"})
     return res
